@@ -3,16 +3,18 @@
 # usage: seed_run.sh <seed id> <Cxx> [tier]      -> prints the tail of the check output; exit code of the check
 set -u
 SID=$1; P=$2; TIER=${3:-quick}
-WT=/tmp/wt_seedrun_$SID
+WT=/tmp/wt_seedrun_${SID}_$P
+TAG=${SID}_$P
 HEAD=$(git -C /repo rev-parse HEAD)
 git -C /repo worktree add -q --detach $WT $HEAD 2>/dev/null || { git -C $WT checkout -q -- . ; git -C $WT clean -fdq; git -C $WT checkout -q --detach $HEAD; }
 # untracked hook files of /repo (verif_*.go) are part of the harness build
 (cd /repo && git ls-files -o --exclude-standard | grep 'verif_.*\.go$' | while read f; do mkdir -p $WT/$(dirname $f); cp $f $WT/$f; done)
 git -C $WT apply /verif/seeded/$SID/patch.diff || { echo "patch does not apply"; exit 3; }
 cd /verif
-VERIF_REPO=$WT VERIF_RUNS=/root/scratch/seedruns/$SID ./check $P --tier $TIER > /root/scratch/seedruns/$SID.log 2>&1
+VERIF_REPO=$WT VERIF_RUNS=/root/scratch/seedruns/$TAG ./check $P --tier $TIER > /root/scratch/seedruns/$TAG.log 2>&1
 RC=$?
-grep -E "VIOLATION|KNOWN-FINDING|^OK|^# " /root/scratch/seedruns/$SID.log | head -8
+grep -E "VIOLATION|^OK|^# " /root/scratch/seedruns/$TAG.log | head -6
+python3 /verif/lib/seed_record.py $SID $P /root/scratch/seedruns/$TAG.log $RC ${4:-}
 echo "seed=$SID check=$P exit=$RC"
 git -C /repo worktree remove --force $WT
 exit $RC
